@@ -263,7 +263,7 @@ class Run:
             name = pat["name"]
             if pat.get("sub") is not None:
                 r = self.match(pat["sub"], v, env)
-                if r:
+                if r is not False:
                     env[name] = v
                 return r
             if name[0].isupper() and name not in env:
